@@ -426,7 +426,7 @@ impl SeqModel {
                 };
                 ex(Res::Obs(v))
             }
-            Op::Yield | Op::AdvanceClock { .. } => ex(Res::Unit),
+            Op::Yield | Op::AdvanceClock { .. } | Op::FutJoin { .. } => ex(Res::Unit),
             Op::MLock { .. } | Op::MTryLock { .. } => Expect::Any,
         }
     }
@@ -827,7 +827,7 @@ pub fn gen_seq(rng: &mut Rng, max_len: usize) -> Case {
     knobs.time = TimeS::Tick;
     knobs.spin = [*rng.pick(&[0u16, 1, 3]), *rng.pick(&[0u16, 1, 3]), *rng.pick(&[0u16, 1, 3])];
     knobs.parallelism = *rng.pick(&[1u8, 4]);
-    Case { cap, ctor, class, mask: rng.next(), knobs, tasks: vec![TaskSpec { handles, ops }], main_keeps_roots: false, lock_harness: false, epilogue: vec![] }
+    Case { cap, ctor, class, mask: rng.next(), knobs, tasks: vec![TaskSpec { handles, ops }], main_keeps_roots: false, lock_harness: false, epilogue: vec![], balanced: false }
 }
 
 
@@ -951,7 +951,7 @@ pub fn enum_seq(index: u64, max_len: u32) -> Case {
     let mut knobs = Knobs::default();
     knobs.monitors = false;
     knobs.spin = [1, 1, 1];
-    Case { cap, ctor: Flavour::Sync, class: Class::SmallDrop, mask: 0x5555_AAAA_1234_F0F0 ^ index, knobs, tasks: vec![TaskSpec { handles, ops }], main_keeps_roots: false, lock_harness: false, epilogue: vec![] }
+    Case { cap, ctor: Flavour::Sync, class: Class::SmallDrop, mask: 0x5555_AAAA_1234_F0F0 ^ index, knobs, tasks: vec![TaskSpec { handles, ops }], main_keeps_roots: false, lock_harness: false, epilogue: vec![], balanced: false }
 }
 
 fn sm_borrowed(ops: &[Op], h: u8) -> bool {
